@@ -230,9 +230,9 @@ def unique_filter(arrays: list[npt.NDArray[np.float32]]) -> npt.NDArray[np.float
 
     # mask
     try:
-        mask = np.sum(np.diff(data, axis=0), axis=1, dtype=bool)
+        mask = np.any(data[1:] != data[:-1], axis=1)
     except np.AxisError:  # handle 1D-data matrix case
-        mask = np.diff(data).astype(bool)
+        mask = data[1:] != data[:-1]
     mask = np.insert(mask, 0, True)
 
     # filtered data
